@@ -138,6 +138,28 @@ func runC17(c *Ctx) {
 			c.Implies(han.StateAtExpr(create.Call), gf.FEq(want, gf.ConstStr("")), "C17.4-created-object-has-no-resource-version", "Upgrade: Create argument", create.Call.Pos())
 		}
 	}
+	// "has relabelled every ControllerRevision of the set": every one there is, not every one a cache has heard of -- the reads
+	// Upgrade decides on (the listing of the revisions, the look for the Advanced set) leave resourceVersion empty
+	{
+		nRead := 0
+		for _, s := range c.sitesOf(fi) {
+			if s.Class != "read" {
+				continue
+			}
+			for _, a := range s.Call.Args {
+				t := s.Info.TypeOf(a)
+				if !isNamed(t, "k8s.io/apimachinery/pkg/apis/meta/v1", "ListOptions") && !isNamed(t, "k8s.io/apimachinery/pkg/apis/meta/v1", "GetOptions") {
+					continue
+				}
+				nRead++
+				host := c.hostOf(fi, s.Call)
+				good, why := emptyResourceVersion(s.Info, defRHSOr(host, s.Info, a))
+				c.Check(good, "C17.2-reads-are-quorum-reads", fmt.Sprintf("Upgrade: %s.%s options", s.Resource, s.Verb), s.Call.Pos(), "resourceVersion is left empty: the read is served from the store",
+					"a read Upgrade decides on may be answered from the API server's watch cache ("+why+"): a revision created a moment ago is missing from the list, is not relabelled, and the run still reports success")
+			}
+		}
+		c.Floor("C17.2-upgrade-reads", nRead, 2)
+	}
 	mustPass("create-or-update of the Advanced set", stmt(create), stmt(update))
 	mustPass("UpdateStatus", stmt(ustatus))
 	mustPass("the revision List", stmt(list))
